@@ -581,20 +581,24 @@ def _expand_template(repl, m):
     if bs not in repl:
         return lift(repl)
     tmpl = P.parse_template(repl, m.re)
-    # py3.12: (groups, literals) pairs
+    out = buf.same([], 0)
+    if isinstance(tmpl, list):
+        # py3.12: flat list  literal, group, literal, group, ..., literal
+        for i, x in enumerate(tmpl):
+            if i % 2 == 0:
+                if x:
+                    out = sconcat(out, lift(x))
+            else:
+                g = m.group(x)
+                if g is not None:
+                    out = sconcat(out, lift(g))
+        return out
     try:
+        # py3.11: (groups, literals)
         groups, literals = tmpl
-        out = buf.same([], 0)
-        for i, lit in enumerate(literals):
-            if lit:
-                out = sconcat(out, lift(lit))
-            if i < len(groups):
-                pass
-        # generic path
         lits = list(literals)
         for idx, g in groups:
             lits[idx] = m.group(g) if m.group(g) is not None else None
-        out = buf.same([], 0)
         for x in lits:
             if x is None:
                 continue
